@@ -105,6 +105,10 @@ func (p *printer) pr(e *ex, level int) string {
 func (p *printer) pr0(e *ex) string {
 	switch e.op {
 	case "int":
+		if p.rg != nil && e.i >= 0 && p.rg.chance(1, 8) {
+			// a decimal literal may be written with leading zeros: still decimal
+			return strings.Repeat("0", 1+p.rg.intn(2)) + strconv.Itoa(e.i)
+		}
 		return strconv.Itoa(e.i)
 	case "float":
 		return e.f
@@ -625,6 +629,13 @@ func runC07(r *run) {
 				if i%5 == 0 {
 					emitTree(e)
 				}
+			}
+		}
+		// integer literals written with leading zeros are decimal
+		for _, l := range []string{"010", "0100", "017", "008", "009", "00", "007", "0010", "01", "0777"} {
+			for _, tpl := range []string{"L", "L + 1", "L * 2", "L == 10", "L - a", "L % 3", "L / 2", "-L", "L ^ 2", "L < 9", "1 + L * L", "L in l", "L|add:1"} {
+				src := strings.ReplaceAll(tpl, "L", l)
+				emit(caseT{"render", w.args("{% autoescape off %}{{ "+src+" }}{% endautoescape %}|{% if "+src+" %}T{% else %}F{% endif %}", ctx)})
 			}
 		}
 		for i := 0; i < nrand; i++ {
